@@ -28,8 +28,8 @@ from idm_common import in_filter, sp_name
 
 WRITE_RE = re.compile(r"^\s*(INSERT|UPDATE|DELETE|CREATE|DROP|ALTER|REPLACE)\b", re.I)
 T_BLOCK = 0.04      # a released thread expected to block: how long we watch it not arriving
-T_STALL = 20.0      # a released thread NOT expected to block must arrive within this time
-T_WAKE = 5.0        # a blocked thread must acquire the lock this long after it was released by the holder
+T_STALL = 120.0     # a released thread NOT expected to block must arrive within this time
+T_WAKE = 60.0       # a blocked thread must acquire the lock this long after it was released by the holder
 
 _tls = threading.local()
 
@@ -197,10 +197,11 @@ class Agent:
         s = sql.upper()
         if self.op_kind == "open":
             if s.startswith("PRAGMA"):
-                # `PRAGMA journal_mode=WAL` returns a row that the constructor never fetches: its implicit transaction
-                # (the header rewrite) stays open until the NEXT execute() on the same cursor resets the statement.
-                # Parking the thread there would park it inside a write transaction that only the 5 s default
-                # time-out of sqlite3.connect bounds (a time-out, not an interleaving): not a scheduling point.
+                # `PRAGMA journal_mode=WAL` returns a row.  The pinned tree never fetched it: the statement's implicit
+                # transaction (the header rewrite) stayed open until the NEXT execute() on the same cursor (the
+                # busy_timeout PRAGMA), which is why that PRAGMA is not a scheduling point — parking there would park
+                # the thread inside a write transaction.  Since 7241d92 the busy_timeout comes first and the switch
+                # fetches its answer (IDManager._enable_wal), so nothing is open at any scheduling point.
                 return ("pragma", False, False, not s.startswith("PRAGMA BUSY_TIMEOUT"))
             return ("create", True, False, True)
         if s.startswith("BEGIN IMMEDIATE"):
@@ -250,6 +251,7 @@ class Agent:
 def run_op(idm, mgr, op, toks):
     """executes one operation on the real IDManager; returns the result in the model's notation"""
     k = op["k"]
+    _t0 = time.time()
     try:
         if k == "get":
             try:
@@ -296,7 +298,10 @@ def run_op(idm, mgr, op, toks):
     except Killed:
         raise
     except Exception as e:  # noqa: BLE001 — locking / constraint errors are what C03 forbids
-        return f"EXC:{type(e).__name__}:{str(e)[:80].replace(' ', '_')}"
+        import traceback
+        fr = [f for f in traceback.extract_tb(e.__traceback__) if "tupimage" in f.filename]
+        where = f"@id_manager.py:{fr[-1].lineno}:{(fr[-1].line or '')[:40].replace(' ', '_')}" if fr else ""
+        return f"EXC:{type(e).__name__}:{str(e)[:80].replace(' ', '_')}{where}@{time.time() - _t0:.2f}s"
 
 
 def op_now(op):
@@ -498,6 +503,10 @@ class Scheduler:
             self.errors.append("threads did not reach their first point")
             return
         while True:
+            # a thread we parked as blocked may already have got the lock and reached its next point (the worker
+            # itself overwrites state "blocked" with "waiting"): its blocked statement has run — account for it
+            # before anything else, otherwise it would sit in its transaction unnoticed while we wait for others
+            self._wake_early()
             with self.cv:
                 ready = [t for t in range(n) if self.state[t] == "waiting"]
                 blocked = [t for t in range(n) if self.state[t] == "blocked"]
@@ -522,7 +531,8 @@ class Scheduler:
                 arrived = self._wait_arrival([t], T_BLOCK)
                 if arrived is None:
                     with self.cv:
-                        self.state[t] = "blocked"
+                        if self.state[t] == "running":      # (it may have arrived since we stopped watching)
+                            self.state[t] = "blocked"
                     self.blocked_info[t] = info
                     self.events.append((t, False))
                     self.log.append(f"{t}:{info['kind']}:BLOCKED")
@@ -533,7 +543,8 @@ class Scheduler:
             arrived = self._wait_arrival([t], T_STALL)
             if arrived is None:
                 with self.cv:
-                    self.state[t] = "blocked"
+                    if self.state[t] == "running":
+                        self.state[t] = "blocked"
                 self.blocked_info[t] = info
                 self.events.append((t, False))
                 self.log.append(f"{t}:{info['kind']}:UNEXPECTED-BLOCK")
@@ -541,9 +552,9 @@ class Scheduler:
             self.log.append(f"{t}:{info['kind']}")
             self._completed(t, info)
             if info["kind"] == "commit":
-                # the write lock was released: a blocked thread (if any) now gets it
-                with self.cv:
-                    blocked = [b for b in range(n) if self.state[b] == "blocked"]
+                # the write lock was released: a blocked thread (if any) now gets it.  `blocked_info` is owned by the
+                # scheduler: a thread stays in it until WE have accounted for its wake-up, however fast it was.
+                blocked = sorted(self.blocked_info)
                 if blocked:
                     b = self._wait_arrival(blocked, T_WAKE)
                     if b is None:
@@ -552,6 +563,12 @@ class Scheduler:
                         self._wake(b)
         for th in self.threads:
             th.join(5)
+
+    def _wake_early(self):
+        with self.cv:
+            early = [t for t in sorted(self.blocked_info) if self.state[t] in ("waiting", "finished")]
+        for t in early:
+            self._wake(t)
 
     def _wake(self, b):
         info = self.blocked_info.pop(b, None)   # the statement the blocked thread was released for has now run
